@@ -76,3 +76,97 @@ for variant, cls in (('inverse', 'KFACInverseLayer'), ('eigen', 'KFACEigenLayer'
                   '*._a_inv', '*._g_inv', '*._qa', '*._qg', '*._da', '*._dg', '*._dgda', '*.grad', '*.val', '*.resolved',
                   '*._allreduce_buckets', '*._tensors', '*._futures', '*._size', '*._communicated', 'ghost:trace', 'ghost:next_sid'],
     )
+
+
+# ------------------------------------------------------------------ hooks, reset, memory, checkpoints
+for variant, cls in (('inverse', 'KFACInverseLayer'), ('eigen', 'KFACEigenLayer')):
+    CONFIG_OK = 'all(layer_config_ok(self._layers[m][1]) and wa_layer_ok(self._assignment, self._layers[m][0]) for m in self._layers)'
+    contract(
+        f'{P}.reset_batch#{variant}', props=['C04', 'C05'], class_map={'KFACBaseLayer': cls},
+        requires=[('layers_present', 'all(self._layers[m][1] is not None for m in self._layers)')],
+        ensures=[('all_buffers_cleared', 'all(self._layers[m][1]._a_batch is None and self._layers[m][1]._g_batch is None and '
+                                         'self._layers[m][1]._a_count == 0 and self._layers[m][1]._g_count == 0 for m in self._layers)'),
+                 ('step_counter_kept', 'self._steps == old(self._steps)')],
+        loops={'0': dict(index='i', invariants=[
+            ('cleared_prefix', 'all(flayer(self, m)._a_batch is None and flayer(self, m)._g_batch is None and '
+                               'flayer(self, m)._a_count == 0 and flayer(self, m)._g_count == 0 for m in range(i))'),
+            ('own_state_stable', 'self._layers == old(self._layers) and self._steps == old(self._steps)')])},
+        modifies=['*._a_batch', '*._a_count', '*._g_batch', '*._g_count'],
+    )
+
+HOOK_LAYER = 'self._layers[module][1]'
+HOOK_NAME = 'self._layers[module][0]'
+for variant, cls in (('inverse', 'KFACInverseLayer'), ('eigen', 'KFACEigenLayer')):
+    for hook, X, arg, argk in (('_save_input', 'a', 'input_', KList(KRef('Tensor'))), ('_save_grad_output', 'g', 'grad_output', KList(KRef('Tensor')))):
+        params = {'module': KRef('Module'), arg: argk}
+        if hook == '_save_grad_output':
+            params['grad_input'] = KList(KRef('Tensor'))
+        UNCHANGED = (f'{HOOK_LAYER}._{X}_batch is old({HOOK_LAYER}._{X}_batch) and {HOOK_LAYER}._{X}_count == old({HOOK_LAYER}._{X}_count) '
+                     f'and {HOOK_LAYER}._{X}_factor is old({HOOK_LAYER}._{X}_factor) and trace() == old(trace()) '
+                     f'and self._mini_steps == old(self._mini_steps)')
+        contract(
+            f'{P}.{hook}#{variant}', props=['C04', 'C05', 'C10', 'C03'], class_map={'KFACBaseLayer': cls},
+            params=params, result=None,
+            requires=[('registered_module', 'module is not None and module in self._layers'),
+                      ('layer_configured', f'layer_config_ok({HOOK_LAYER}) and wa_layer_ok(self._assignment, {HOOK_NAME})'),
+                      ('pass_data_present', f'len({arg}) >= 1 and {arg}[0] is not None and {HOOK_LAYER}._{X}_batch is not {arg}[0]'),
+                      ('shapes', f'implies({HOOK_LAYER}._{X}_factor is not None, is_square(awaited({HOOK_LAYER}._{X}_factor).shape)) and '
+                                 f'implies({HOOK_LAYER}._{X}_batch is not None, is_square({HOOK_LAYER}._{X}_batch.shape))'),
+                      ('helper_factors_are_square', 'True'),
+                      ('scaler', f'{HOOK_LAYER}.grad_scaler is None or (callable({HOOK_LAYER}.grad_scaler) and '
+                                 f'isinstance({HOOK_LAYER}.grad_scaler(), (int, float)))'),
+                      ('settings', f'self._assignment is not None and self._accumulation_steps > 0 and {NUMBER("self.factor_decay")} and '
+                                   'isinstance(self.factor_update_steps, int) and self.factor_update_steps > 0')],
+            may_raise=['RuntimeError', 'NonSquareTensorError'],
+            ensures=[
+                ('eval_mode_is_a_no_op', f'implies(not module.training, {UNCHANGED})'),
+                ('only_on_factor_update_steps', f'implies(self._steps % self.factor_update_steps != 0, {UNCHANGED})'),
+                ('step_counter_untouched', 'self._steps == old(self._steps)'),
+            ] + ([('counts_the_forward_pass', f'implies(module.training and self._steps % self.factor_update_steps == 0, '
+                                              f'self._mini_steps[{HOOK_NAME}] == (old(self._mini_steps)[{HOOK_NAME}] if {HOOK_NAME} in old(self._mini_steps) else 0) + 1)')]
+                 if hook == '_save_input' else [('mini_step_counter_untouched', 'True')]),
+            modifies=['self._mini_steps', f'{HOOK_LAYER}._{X}_batch', f'{HOOK_LAYER}._{X}_count', f'{HOOK_LAYER}._{X}_factor',
+                      '*.resolved', '*.val', f'{HOOK_LAYER}.tdc._allreduce_buckets', '*._tensors', '*._futures', '*._size', '*._communicated',
+                      'ghost:trace', 'ghost:next_sid'],
+        )
+
+# ------------------------------------------------------------------ checkpoints (C09)
+from pyvc.values import KRecord   # noqa: E402
+T_ = KRef('Tensor')
+LAYER_STATE = KDict(KStr, T_)
+STATE = KRecord({'steps': KInt, 'factor_update_steps': KDyn, 'inv_update_steps': KDyn, 'damping': KDyn,
+                 'factor_decay': KDyn, 'kl_clip': KDyn, 'lr': KDyn, 'layers': KDict(KStr, LAYER_STATE)})
+HYP = ['factor_update_steps', 'inv_update_steps', 'damping', 'factor_decay', 'kl_clip', 'lr']
+
+for variant, cls in (('inverse', 'KFACInverseLayer'), ('eigen', 'KFACEigenLayer')):
+    CONFIG_OK = 'all(layer_config_ok(self._layers[m][1]) and wa_layer_ok(self._assignment, self._layers[m][0]) for m in self._layers)'
+    RESTORED = ("self._steps == state_dict['steps'] and self._layers == old(self._layers) and self._assignment is old(self._assignment) and "
+                + ' and '.join(f"implies('{h}' in state_dict, same(self._{h}, state_dict['{h}'])) and "
+                               f"implies(not ('{h}' in state_dict), same(self._{h}, old(self._{h})))" for h in HYP))
+    SHAPES = [(lbl, over_layers(body)) for lbl, body in
+              [('factor_shapes', 'implies(l._a_factor is not None, is_square(awaited(l._a_factor).shape)) and implies(l._g_factor is not None, is_square(awaited(l._g_factor).shape))')]
+              + MUT_VARIANT[variant]]
+    LINV = [('scalars_restored', RESTORED)] + SHAPES
+    contract(
+        f'{P}.load_state_dict#{variant}', props=['C09', 'C03', 'C05'], class_map={'KFACBaseLayer': cls},
+        params={'state_dict': STATE, 'compute_inverses': KBool},
+        requires=[('valid_state', "'steps' in state_dict and state_dict['steps'] >= 0"),
+                  ('hyperparameters_in_state_are_numbers',
+                   ' and '.join(f"implies('{h}' in state_dict, {NUMBER(chr(115) + 'tate_dict[' + repr(h) + ']')})" for h in HYP)),
+                  ('layer_states_complete', "implies('layers' in state_dict, all('A' in state_dict['layers'][n] and 'G' in state_dict['layers'][n] "
+                                            "and implies(state_dict['layers'][n]['A'] is not None, is_square(state_dict['layers'][n]['A'].shape)) "
+                                            "and implies(state_dict['layers'][n]['G'] is not None, is_square(state_dict['layers'][n]['G'].shape)) "
+                                            "for n in state_dict['layers']))"),
+                  ('assignment_present', 'self._assignment is not None'),
+                  ('layers_configured', CONFIG_OK)] + SHAPES + [
+                  ('damping_usable', f'implies(not (\'damping\' in state_dict), callable(self._damping) or {NUMBER("self._damping")}) and '
+                                     'implies(callable(self._damping) and not (\'damping\' in state_dict), ' + NUMBER("self._damping(state_dict[\'steps\'])") + ')')],
+        raises=[('ValueError', "'layers' in state_dict and len(state_dict['layers']) != len(self._layers)")],
+        ensures=[
+            ('step_count_restored', "self._steps == state_dict['steps']"),
+        ] + [(f'{h}_restored', f"implies('{h}' in state_dict, same(self._{h}, state_dict['{h}'])) and "
+                               f"implies(not ('{h}' in state_dict), same(self._{h}, old(self._{h})))") for h in HYP],
+        loops={'0': dict(index='i', invariants=LINV), '0.0': dict(index='j', invariants=LINV), '1': dict(index='i', invariants=LINV)},
+        modifies=['self._steps'] + [f'self._{h}' for h in HYP] + ['*._a_factor', '*._g_factor', '*._a_inv', '*._g_inv', '*._qa', '*._qg', '*._da',
+                                                                   '*._dg', '*._dgda', '*.val', '*.resolved', 'ghost:trace', 'ghost:next_sid'],
+    )
